@@ -30,13 +30,14 @@ private def answer (r : Option (XF × Nat)) : Sexp :=
   | some (x, e) => .list [.atom "form", .list [.atom "errors", .ofNat e], .list (renderXF x)]
   | none => .list [.atom "no-form"]
 
+/- the request may carry a second element `(lists …)` (the explicit lists as written, for the harness's own use) -/
 def handleModel (args : List Sexp) : Sexp :=
-  match forest? args with
+  match forest? (args.take 1) with
   | some root => answer (buildForm (depth root + 1) root)
   | none => .list [.atom "bad-request"]
 
 def handleSpec (args : List Sexp) : Sexp :=
-  match forest? args with
+  match forest? (args.take 1) with
   | some root => answer (QV.Spec.FormTree.specForm root)
   | none => .list [.atom "bad-request"]
 
